@@ -8,7 +8,7 @@ Definition sb_n_TicketSalt := Eval vm_compute in sb_enc "TicketSalt".
 
 (* the frame FilterUtility / EventQueue create: Self is a fresh namespace, no locals *)
 Definition sb_filter_frame : sb_frame :=
-  {| sbfr_sandboxed := true; sbfr_self := SbVObj sb_t_Namespace (SbLocal 0); sbfr_locals := None |}.
+  {| sbfr_sandboxed := true; sbfr_top := true; sbfr_self := SbVObj sb_t_Namespace (SbLocal 0); sbfr_locals := None |}.
 Definition sb_st0 (globals : sb_cell) : sb_st :=
   {| sbs_shared := [globals]; sbs_extern := []; sbs_local := [[]]; sbs_calls := []; sbs_reads := []; sbs_choices := [] |}.
 
@@ -29,3 +29,36 @@ Lemma sb_console_refuted :
 Proof. vm_compute. tauto. Qed.
 Lemma sb_console_filtered F v : sb_console_result F false v = [].
 Proof. destruct v; reflexivity. Qed.
+
+(* seeded change "using": if VMOps::FindVarImport read through GetOwnField (fact [sbf_var_import_checked] = false), the
+   sandboxed program `using <ApiUser object>; password` would fetch the password *)
+Definition sb_facts_import_unchecked (F : sb_facts) : sb_facts :=
+  {| sbf_exprs := sbf_exprs F; sbf_funcs := sbf_funcs F; sbf_cbguards := sbf_cbguards F; sbf_hidden := sbf_hidden F;
+     sbf_hidden_globals := sbf_hidden_globals F; sbf_call_guard := sbf_call_guard F;
+     sbf_getfield_checked := sbf_getfield_checked F; sbf_ref_get_checked := sbf_ref_get_checked F;
+     sbf_indexer_noinit := sbf_indexer_noinit F; sbf_frame_inherit := sbf_frame_inherit F;
+     sbf_userfunc_unsafe := sbf_userfunc_unsafe F; sbf_var_import_checked := false |}.
+Definition sb_n_u := Eval vm_compute in sb_enc "u".
+Definition sb_using_prog : sb_expr := SbVariable sb_n_password [SbVariable sb_n_u []].
+Definition sb_using_st : sb_st :=
+  {| sbs_shared := [[(sb_n_u, SbVObj sb_t_ApiUser (SbShared 1))]; [(sb_n_password, SbVOpaque)]]; sbs_extern := [];
+     sbs_local := [[]]; sbs_calls := []; sbs_reads := []; sbs_choices := [] |}.
+Lemma sb_using_unchecked_leaks :
+  sbs_reads (snd (sb_eval (sb_facts_import_unchecked sb_cur_facts) 4 sb_filter_frame sb_using_prog sb_using_st))
+  = [SbRdField sb_t_ApiUser sb_n_password].
+Proof. vm_compute. reflexivity. Qed.
+
+(* seeded change "frame stack": with an unsandboxed frame above the user's frame ([sbfr_top] = false) the callback test of
+   Array#map does not fire, and `[x].map(<unsafe native>)` invokes the unsafe function, which writes protected state *)
+Definition sb_n_map := Eval vm_compute in sb_enc "map".
+Definition sb_n_log := Eval vm_compute in sb_enc "System#log".
+Definition sb_stack_prog : sb_expr :=
+  SbFunctionCall (SbIndexer (SbArray [SbLiteral SbLNum]) (SbLiteral (SbLStr sb_n_map))) [SbVariable sb_n_log []].
+Definition sb_stack_st : sb_st :=
+  {| sbs_shared := [[(sb_n_log, SbVFun (SbNative sb_n_log))]]; sbs_extern := []; sbs_local := [[]]; sbs_calls := [];
+     sbs_reads := []; sbs_choices := [] |}.
+Definition sb_below_frame : sb_frame :=
+  {| sbfr_sandboxed := true; sbfr_top := false; sbfr_self := SbVObj sb_t_Namespace (SbLocal 0); sbfr_locals := None |}.
+Lemma sb_stack_unsandboxed_top_writes :
+  sb_protected (snd (sb_eval sb_cur_facts 6 sb_below_frame sb_stack_prog sb_stack_st)) <> sb_protected sb_stack_st.
+Proof. vm_compute. discriminate. Qed.
